@@ -303,6 +303,8 @@ structure Input where
   ctl : String
   cls : String
   reloadErr : Bool
+  /-- handler stream: why `reloadErr` (the truth of the environment) is set; "" for the direct stream -/
+  failKind : String := ""
   objs : Objs
   conf : Option Conf
   st : Prepared
@@ -395,7 +397,9 @@ def clauseAccepted (i : Input) : List String :=
           | some (g, c, gs) => refersTo p r.ns g && servedVia i.objs.namespaces c (tlsBinding i g) gs g r p
           | none => false
         let acc := isTrue e.conds "Accepted"
-        if acc && !served then ["accepted:true-but-not-served:" ++ cause i r ++ "@" ++ r.key]
+        if acc && !served then
+          ["accepted:true-but-not-served:" ++ (if i.reloadErr && i.failKind ≠ "" then i.failKind else cause i r) ++
+            "@" ++ r.key]
         else if !acc && served then
           let why := reasonOf e.conds "Accepted"
           let leak := match ctx with
@@ -493,7 +497,8 @@ def portServed (c : Conf) (l : OListener) : Bool :=
 
 /-- `programmed` -/
 def clauseProgrammed (i : Input) : List String :=
-  (if i.reloadErr && !i.st.noProgrammedTrue then ["programmed:true-after-failed-reload"] else []) ++
+  (if i.reloadErr && !i.st.noProgrammedTrue then
+    ["programmed:true-after-failed-reload" ++ (if i.failKind ≠ "" then ":" ++ i.failKind else "")] else []) ++
   match i.winner with
   | none => []
   | some g =>
@@ -540,7 +545,11 @@ def clausePolicies (i : Input) : List String :=
         else none)
       genBad ++ dup ++
       (want.filter (fun k => !got.contains k)).map (fun k => "policies:missing@" ++ key ++ ":" ++ k) ++
-      ((dedupStr got).filter (fun k => !want.contains k)).map (fun k => "policies:unexpected@" ++ key ++ ":" ++ k)
+      ((mine.filter (fun a => !want.contains (ancKey a.ref))).map fun a =>
+        -- an entry for a Route that no longer exists: left over from an earlier batch
+        let gone := (a.ref.kind = "HTTPRoute" ∨ a.ref.kind = "GRPCRoute") ∧
+          !(i.objs.routes.any fun r => r.kind = a.ref.kind ∧ r.ns = a.ref.ns ∧ r.name = a.ref.name)
+        (if gone then "policies:stale-after-target-removed@" else "policies:unexpected@") ++ key ++ ":" ++ ancKey a.ref)
 
 /-- `generation` for gateways -/
 def clauseGeneration (i : Input) : List String :=
